@@ -36,6 +36,8 @@ def check(prop: str, tier: str) -> int:
         ctx.build = core.build()
         ctx.tables = ctx.build.get("tables", {}).get("values", {})
         ctx.audit = core.audit(ctx)
+        if tier == "thorough" and core.vo_ok(f"Properties/{prop}.v"):
+            ctx.coqchk = core.coqchk(prop)
         # a broken tie or proof widens the search for a failing input
         ctx.deep = (not ctx.build["make_ok"]) or any(prop in u.get("props", []) for u in ctx.build["unrecognised"]) \
             or not ctx.audit.get("ok", False)
